@@ -40,7 +40,7 @@ fn to_msg(e: &Ev) -> DltMessage {
             &[
                 (DLT_TYPE_INFO_STRG, s(b"FLST\0")),
                 (U32, serial.to_le_bytes().to_vec()),
-                (DLT_TYPE_INFO_STRG, format!("dir/f{}.bin\0", 99 - (*serial % 100)).into_bytes()), // names sort opposite to the serials
+                (DLT_TYPE_INFO_STRG, format!("{}\0", name_of(*serial)).into_bytes()), // names sort opposite to the serials
                 (U32, size.to_le_bytes().to_vec()),
                 (DLT_TYPE_INFO_STRG, s(b"date\0")),
                 (U32, nr.to_le_bytes().to_vec()),
@@ -60,6 +60,21 @@ fn to_msg(e: &Ev) -> DltMessage {
         ),
         Ev::F(serial) => msg(3, &[(DLT_TYPE_INFO_STRG, s(b"FLFI\0")), (U32, serial.to_le_bytes().to_vec()), (DLT_TYPE_INFO_STRG, s(b"FLFI\0"))]),
         Ev::O => msg(2, &[(DLT_TYPE_INFO_STRG, s(b"some other log\0")), (U32, 7u32.to_le_bytes().to_vec())]),
+    }
+}
+
+/// the announced file name of a transfer: with directory parts, absolute, leading outside, ending in `..`, colliding base names
+pub fn name_of(serial: u32) -> String {
+    let n = 99 - (serial % 100);
+    match serial % 8 {
+        0 => format!("/abs/g{}.bin", n),
+        1 => format!("../up{}.bin", n),
+        2 => format!("dir/f{}.bin", n),
+        3 => "plain.bin".to_string(),
+        4 => format!("a/../../b{}.txt", n),
+        5 => "dir/..".to_string(),
+        6 => "x/same.bin".to_string(),
+        _ => "y/z/same.bin".to_string(),
     }
 }
 
@@ -86,8 +101,49 @@ fn hash(b: &[u8]) -> u64 {
     b.iter().fold(7u64, |h, x| (h * 31 + *x as u64 + 1) % 4294967291)
 }
 
+/// second run with automatic saving: what ends up in the configured directory, and what outside of it
+fn run_auto_save(evs: &[Ev], glob: &str) -> String {
+    let sb = tempfile::tempdir().unwrap();
+    let save = sb.path().join("save");
+    std::fs::create_dir_all(&save).unwrap();
+    std::fs::write(save.join("plain.bin"), b"old").unwrap(); // an existing file must never be overwritten
+    let cfg = json!({"name": "f", "allowSave": true, "keepFLDA": true, "autoSavePath": save.to_str().unwrap(), "autoSaveGlob": glob});
+    let mut p = match FileTransferPlugin::from_json(cfg.as_object().unwrap()) {
+        Ok(p) => p,
+        Err(_) => return "A:E".to_string(),
+    };
+    for e in evs {
+        let mut m = to_msg(e);
+        p.process_msg(&mut m);
+    }
+    let mut inside = vec![];
+    let mut outside = 0;
+    fn walk(d: &std::path::Path, f: &mut dyn FnMut(&std::path::Path)) {
+        if let Ok(rd) = std::fs::read_dir(d) {
+            for e in rd.flatten() {
+                let p = e.path();
+                if p.is_dir() {
+                    walk(&p, f);
+                } else {
+                    f(&p);
+                }
+            }
+        }
+    }
+    walk(sb.path(), &mut |p| match p.strip_prefix(&save) {
+        Ok(rel) if rel.components().count() == 1 => {
+            let d = std::fs::read(p).unwrap_or_default();
+            inside.push(format!("{}:{}:{}", crate::dp::hex(rel.to_string_lossy().as_bytes()), d.len(), hash(&d)));
+        }
+        _ => outside += 1,
+    });
+    inside.sort();
+    format!("A:{} X:{}", inside.join("+"), outside)
+}
+
 fn run(case: &str) -> String {
     let evs: Vec<Ev> = case.split(" | ").nth(1).unwrap_or("").split(';').filter(|x| !x.trim().is_empty()).map(parse_ev).collect();
+    let auto = case.split(" | ").nth(2).map(|g| run_auto_save(&evs, g.trim()));
     let cfg = json!({"name": "f", "allowSave": true, "keepFLDA": true});
     let mut p = FileTransferPlugin::from_json(cfg.as_object().unwrap()).unwrap();
     for e in &evs {
@@ -149,7 +205,10 @@ fn run(case: &str) -> String {
         };
         outs.push(format!("{}:{}:{}:{}", serial, stc, len, h));
     }
-    outs.join(" ")
+    match auto {
+        Some(a) => format!("{} # {}", outs.join(" "), a),
+        None => outs.join(" "),
+    }
 }
 
 fn gen(rng: &mut Rng, tier: u32) -> String {
@@ -271,7 +330,12 @@ fn gen(rng: &mut Rng, tier: u32) -> String {
         seq.push(streams[i][ix[i]].clone());
         ix[i] += 1;
     }
-    format!("{} | {}", metas.join(" "), seq.iter().map(fmt_ev).collect::<Vec<_>>().join(";"))
+    let glob = match rng.below(4) {
+        0 => " | *",
+        1 => " | *.bin",
+        _ => "",
+    };
+    format!("{} | {}{}", metas.join(" "), seq.iter().map(fmt_ev).collect::<Vec<_>>().join(";"), glob)
 }
 
 impl Area for Ft {
